@@ -39,3 +39,5 @@ JOBS += [
     B("w_extbeGetQuick", "H_extbeGetQuick"),
     B("w_extbeRoundTrip", "H_extbeRoundTrip", props=("C01",)),
 ]
+
+JOBS += [J("w_extMono", "H_extMono", props=("C04",))]
